@@ -19,6 +19,8 @@ import GscribModel.Drv.TracerSrc
 import GscribModel.Drv.FormatSrc
 import GscribModel.Drv.XformSrc
 import GscribModel.Drv.HeightSrc
+import GscribModel.Drv.SenderSrc
+import GscribModel.Drv.DirectWriteSrc
 /-! Line-protocol driver: `driver <mode>` (or `lake env lean --run Driver.lean <mode>`) reads one
     case/operation per line on stdin and prints exactly one record per line (`bad-op …` for an
     unparsable line).  Each mode lives in `GscribModel/Drv/<Mode>.lean`. -/
@@ -47,4 +49,6 @@ def main (args : List String) : IO UInt32 := do
   | ["formatsrc"] => FormatSrcDrv.main; return 0
   | ["xform"] => XformSrcDrv.main; return 0
   | ["heightsrc"] => HeightSrcDrv.main; return 0
+  | ["sendersrc"] => SenderSrcDrv.main; return 0
+  | ["dwritesrc"] => DirectWriteSrcDrv.main; return 0
   | _ => IO.eprintln s!"unknown mode {args}"; return 2
